@@ -18,6 +18,7 @@ type Prog struct {
 	Global  string           `json:"global,omitempty"`
 	FnNames bool             `json:"fnNames,omitempty"`
 	Timeout int              `json:"timeout,omitempty"`
+	Prelude string           `json:"prelude,omitempty"` // script run in the fresh context before the entry (never seen by esbuild)
 }
 
 func progScript(code string) Prog {
